@@ -42,6 +42,10 @@ func init() {
 			dj := c.mcHolds("GenDisj", "GenDisj.cfg", tlcOpts{})
 			dc, dr := c.replay("engine", dj.cases, replayOpts{})
 			c.judge("engine", dc, dr, func(cs, res map[string]J) string { in, _ := res["input"].(string); return in })
+			// a recursion 2 500 levels deep between the call of a committing construct and its cut (for the model: a fact)
+			dp := c.mcHolds("GenCut", "GenCut_deep.cfg", tlcOpts{})
+			pc, pr := c.replay("engine", dp.cases, replayOpts{opts: map[string]string{"deep": "1"}})
+			c.judge("engine", pc, pr, func(cs, res map[string]J) string { in, _ := res["input"].(string); return in + " (deep)" })
 			// head shapes x cuts: a clause whose head does not unify (a repeated variable, too) cuts nothing
 			ch := c.mcHolds("GenCutHead", "GenCutHead.cfg", tlcOpts{})
 			hc, hr := c.replay("engine", ch.cases, replayOpts{})
@@ -138,6 +142,10 @@ func init() {
 			rs := c.mcHolds("GenBag", "GenBag_share.cfg", tlcOpts{})
 			sc, sr := c.replay("engine", rs.cases, replayOpts{})
 			c.judge("engine", sc, sr, func(cs, res map[string]J) string { in, _ := res["input"].(string); return in })
+			// a variable that occurs only as the tail of a partial list, in the goal and in the template
+			rt := c.mcHolds("GenBag", "GenBag_tail.cfg", tlcOpts{})
+			tc, tr := c.replay("engine", rt.cases, replayOpts{})
+			c.judge("engine", tc, tr, func(cs, res map[string]J) string { in, _ := res["input"].(string); return in })
 			c.engineTV(tvN(c), "bag")
 			c.exhaustive = true
 		},
